@@ -477,12 +477,19 @@ def _disjoint(fields):
     """
     Return fields as a disjoint set.
     """
-    for m, n in combinations(range(len(fields)), 2):
-        if lentil.extent.intersect(fields[m]['extent'], fields[n]['extent']):
-            fields[m]['field'].extend(fields[n]['field'])
-            fields[m]['extent'] = boundary(fields[m]['field'])
-            fields.pop(n)
-            return _disjoint(fields)
+    # merge one overlapping pair at a time and start over until no pair
+    # overlaps (a loop rather than recursion: one level of recursion per merge
+    # hits the interpreter's limit at about 1000 overlapping fields)
+    merged = True
+    while merged:
+        merged = False
+        for m, n in combinations(range(len(fields)), 2):
+            if lentil.extent.intersect(fields[m]['extent'], fields[n]['extent']):
+                fields[m]['field'].extend(fields[n]['field'])
+                fields[m]['extent'] = boundary(fields[m]['field'])
+                fields.pop(n)
+                merged = True
+                break
     return fields
 
 
